@@ -98,6 +98,15 @@ func runDirectionClause(c *core.Check, rule string, pkgs []*packages.Package) {
 	c.Decide(nflags >= 3 && nsites >= 10, rule, "direction:sites", token.NoPos, fmt.Sprintf("%d direction flags, %d axis-specific displacements, all under a test of the flag", nflags, nsites), fmt.Sprintf("only %d flags / %d sites found", nflags, nsites))
 }
 
+func runTwinAssignClause(c *core.Check, rule string, pkgs []*packages.Package) {
+	c.Rule(rule, "computations repeated under the same condition for two elements stay the same computation")
+	issues, n := twinAssignIssues(c.P, pkgs)
+	for _, is := range issues {
+		c.Fail(rule, is.Key, is.Pos, "the same condition guards two assignments to the same variable, written once per element, and the two right-hand sides are no longer the same computation: "+is.Text)
+	}
+	c.PassTrivial(rule, "twin-assign:inventory", token.NoPos, fmt.Sprintf("%d pairs of twin assignments", n))
+}
+
 func runBoundsClause(c *core.Check, rule string, pkgs []*packages.Package, floor int) {
 	issues, nacc, nupd := runningBoundIssues(c.P, pkgs)
 	for _, m := range issues {
@@ -114,7 +123,7 @@ func init() {
 	register(&Prop{
 		ID: "C19", Title: "Containers enclose their children and siblings do not overlap",
 		Patterns:    []string{"./d2layouts/...", "./d2graph", "./lib/geo"},
-		Explanation: "Decides two necessary conditions only: (1) axis consistency of the container-fitting, spacing and positioning arithmetic of the layout packages (d2layouts and its engines, d2graph's layout helpers, lib/geo): no sum, difference or comparison mixes a horizontal with a vertical quantity and no value of one axis is stored into a place of the other, apart from ten reviewed cases; (2) every running bound in those packages (min/max accumulators used to fit containers and compute extents) is accumulated monotonically in one direction and never overwritten inside its loop; (3) mirrored arms — an if/else on a boolean switch whose two short arms are copies of each other up to identifiers (rows/columns, X/Y, Width/Height) is a consistent one-to-one renaming, and a ceiling division (a + d - 1) / e divides by the d it added; (4) in a function with a direction flag (a bool parameter that selects an X arm or a Y arm), every displacement along a single axis is under a test of that flag; (5) a call passing a displacement (dx, dy) whose two components have the same shape takes both from the same source (margin.Left, margin.Top — not another object's).",
+		Explanation: "Decides two necessary conditions only: (1) axis consistency of the container-fitting, spacing and positioning arithmetic of the layout packages (d2layouts and its engines, d2graph's layout helpers, lib/geo): no sum, difference or comparison mixes a horizontal with a vertical quantity and no value of one axis is stored into a place of the other, apart from ten reviewed cases; (2) every running bound in those packages (min/max accumulators used to fit containers and compute extents) is accumulated monotonically in one direction and never overwritten inside its loop; (3) mirrored arms — an if/else on a boolean switch whose two short arms are copies of each other up to identifiers (rows/columns, X/Y, Width/Height) is a consistent one-to-one renaming, and a ceiling division (a + d - 1) / e divides by the d it added; (4) in a function with a direction flag (a bool parameter that selects an X arm or a Y arm), every displacement along a single axis is under a test of that flag; (5) a call passing a displacement (dx, dy) whose two components have the same shape takes both from the same source (margin.Left, margin.Top — not another object's); (6) twin assignments: two ifs of one function with the same condition that assign the same variable have the same right-hand side up to a one-to-one renaming.",
 		NotCovered:  geomNotCovered,
 		Technique:   "static analysis: name-typed axis inference over arithmetic (E15), monotone-accumulator check, sibling-arm comparison",
 		Run: func(c *core.Check) {
@@ -125,6 +134,7 @@ func init() {
 			runMirrorClause(c, "C19.mirror", pk, 10)
 			runCeilClause(c, "C19.ceil-division", pk)
 			runDirectionClause(c, "C19.direction", pk)
+			runTwinAssignClause(c, "C19.twin-assign", pk)
 			{
 				c.Rule("C19.paired-args", "the two components of one displacement come from the same source")
 				issues, n := pairedArgIssues(c.P, pk, true)
@@ -542,6 +552,7 @@ func runC29(c *core.Check) {
 	runBoundsClause(c, "C29.bounds", pk, 8)
 	runAxisClause(c, "C29.axis", pk, nil, 300)
 	runMirrorClause(c, "C29.mirror", pk, 0)
+	runTwinAssignClause(c, "C29.twin-assign", pk)
 	c.Rule("C29.visit-all", "the bounding-box loops visit every shape, connection and nested board")
 	nv := 0
 	for _, name := range []string{"BoundingBox", "NestedBoundingBox"} {
